@@ -132,6 +132,9 @@ def ast_forbidden_calls(tree, f: FuncInfo):
     for node in ast.walk(f.node):
         if isinstance(node, ast.Call):
             n += 1
+            don = [k.arg for k in node.keywords if k.arg in ("donate_argnums", "donate_argnames")]
+            if don:
+                out.append((f"buffer donation ({don[0]}): the caller's argument is invalidated after the call", node))
             q = tree.resolve_expr(f.module, node.func)
             if q is None and isinstance(node.func, ast.Name) and hasattr(__import__("builtins"), node.func.id):
                 q = "builtins." + node.func.id
@@ -168,6 +171,16 @@ def check(tier: str) -> Result:
             tot_calls += n
             for name, node in bad:
                 bad_calls.append((f, name, node))
+        seen_mods = set()
+        for q, f in closure.items():
+            m = f.module
+            if m.name in seen_mods:
+                continue
+            seen_mods.add(m.name)
+            for node in ast.walk(m.tree):
+                if isinstance(node, ast.Call) and any(k.arg in ("donate_argnums", "donate_argnames") for k in node.keywords):
+                    if not any(b[2] is node for b in bad_calls):
+                        bad_calls.append((f, "buffer donation (donate_argnums/donate_argnames) in a module of the closure: arguments are invalidated after the call", node))
         for name, f, node in [(n, f, nd) for f, n, nd in bad_calls]:
             res.add("C02.R2", f"{f.module.relpath}:{node.lineno}", short(f.qual), f"call {name}", False,
                     f"{name} is an ambient source of nondeterminism / host effect inside the reset/step closure")
